@@ -67,6 +67,9 @@ def _finished(res):
     return [out[k] for k in sorted(out)]
 
 
+LAST_ALL = []
+
+
 def configurations(ctx, name="CodecConfig", only=None):
     """Returns (list of {cfg, outcome}, info).  quick: pairwise design with one salt; thorough: two salts
     plus random valid configurations from tlc -simulate in 'free' mode (deeper transforms)."""
@@ -103,6 +106,7 @@ def configurations(ctx, name="CodecConfig", only=None):
     if cache:
         with open(cache, "w") as f:
             json.dump(cfgs, f)
+    LAST_ALL[:] = cfgs  # the whole enumerated design (supplements of single drivers pick from it)
     if only:
         cfgs = [c for c in cfgs if only(c)]
     return cfgs, info
